@@ -9,12 +9,16 @@ import XPathV.Lemmas.CmpSem
 regenerated dispatch matrix; `Lemmas/CmpSem.lean` the remaining cells, `and`/`or` with their
 short-circuit, `not()`/`boolean()`/`true()`/`false()`, and the induction over expressions.
 
-Fragment `XExp`: number and string literals, predicate-free paths (`PathPF`), comparisons
-`a op b` on the type pairs of `pairOK` (all the pairs the property lists, plus number/string and
-the boolean pairs), `and`, `or`, `not()` of a boolean or node-set, `boolean()`, `true()`,
-`false()`, parentheses — nested to any depth.  Outside (the model — like the Go code — does not
-follow XPath there, and the property does not list them): string-vs-number, relational operators on
-two strings / two node-sets / a boolean with a number or string, `not()` of a number or string.
+Fragment `XExp`: number and string literals, predicate-free paths (`PathPF`), the arithmetic
+expressions of C08 (`ArithSem.NumEC`: `+ - * div`, unary minus, `floor`, `ceiling`, `number`,
+`string-length('…')`, `count` over flat paths) and the nested string-function calls of C09
+(`StringFns.StrE`) as number- and string-valued leaves, comparisons `a op b` on the type pairs of
+`pairOK` (all the pairs the property lists, plus number/string and the boolean pairs), `and`, `or`,
+`not()` of an operand of **any** type (boolean, node-set, number, string — `notFunc` was repaired:
+`default: return !asBool(t, v)`), `boolean()`, `true()`, `false()`, parentheses — nested to any
+depth.  Outside (the model — like the Go code — does not follow XPath there, and the property does
+not list them): string-vs-number, relational operators on two strings / two node-sets / a boolean
+with a number or string.
 -/
 namespace XPathV.Theorems.C07
 open XPathV XPathV.Model XPathV.Facts XPathV.PathSem XPathV.CmpSem NumAlg
@@ -51,6 +55,24 @@ theorem C07_main_unconditional {d : Doc} (wf : WF d) (cfg : ECfg) (hns : cfg.nsI
     ∃ t : Bool, evalP (F := F) d cfg o.q c = .ok (.bool t) ∧
       Spec.evalTop (F := F) d e c = .ok (.bool t) :=
   C07_main wf cfg hns (PathSem.hashInj_holds wf hattr cfg) c hc regexOk limit sdf e h st o hb
+
+/-- `C07_main` with the **full** arithmetic fragment of C08 as number-valued leaves: `mod` and
+`sum` too, inside the oracle's domain at the context node (`ArithSem.NumEF d ⟨c, 1, 1⟩ F`) -/
+theorem C07_main_full {d : Doc} (wf : WF d) (cfg : ECfg) (hns : cfg.nsIface = true)
+    (hinj : HashInj d cfg) (c : Ref) (hc : validRef d c = true) (regexOk : RegexOk) (limit : Nat)
+    (sdf : Bool) (e : Ast) (h : XExpG (ArithSem.NumEF d ⟨c, 1, 1⟩ F) StringFns.StrE .bool e)
+    (st : BState) (o : BOut) (hb : build regexOk limit true sdf e {} st = .ok o) :
+    ∃ t : Bool, evalP (F := F) d cfg o.q c = .ok (.bool t) ∧
+      Spec.evalTop (F := F) d e c = .ok (.bool t) :=
+  build_bool_expr_sem_full wf cfg hns hinj c hc regexOk limit sdf e h st o hb
+
+/-- **`not()` of every type** (`callFn_not_spec`): on a boolean, a node-set, a number or a string the
+engine's `not` is the oracle's `not(boolean(v))` -/
+theorem C07_not_any_type (d : Doc) (cfg : ECfg) (fi : Plan) (c : Ref) (ctx : Spec.Ctx)
+    (v : Spec.Value F) (asel : Option (List Ref)) :
+    callFn (F := F) d cfg "not" fi c [.ok (Theorems.C08.emb v)] asel = .ok (.bool (!Spec.toBool v)) ∧
+    Spec.callFn (F := F) d ctx "not" [v] = .ok (.bool (!Spec.toBool v)) :=
+  callFn_not_spec d cfg fi c ctx v asel
 
 /-- the property's own fragment (comparisons over literals and paths on the listed pairs, closed
 under `and`/`or`/`not()`/`boolean()`) -/
